@@ -1,6 +1,12 @@
 import TongoModel.Shard
 import TongoGen.Shards
 import TongoProofs.Lemmas.GoInt
+import TongoProofs.Lemmas.ShardAlg
+import TongoGen.Crc16Table
+import TongoModel.Address
+import TongoProofs.Lemmas.Crc16Lin
+import TongoProofs.Lemmas.Base64Bits
+import TongoProofs.Lemmas.AddrRoundtrip
 /-! Property C17 — account addresses and shard ids keep their meaning across all forms.
 Property theorems only (helper lemmas live in TongoProofs/Lemmas).
 
@@ -61,7 +67,82 @@ theorem gen_convertShardIdent (b : BitVec 8) (wc : BitVec 32) (p : BitVec 64) :
 /-- tie: the regenerated anycast rewrite arithmetic of ton.AccountIDFromTlb equals the hand model -/
 theorem gen_anycastRewrite (a d r : BitVec 32) : Gen.Shards.anycastRewrite a d r = anycastRewrite a d r := rfl
 
-/-! ## 2. shard algebra -/
+/-- tie: the table-driven byte step REGENERATED from utils.Crc16 (with the regenerated 256-entry `TABLE`) is eight bit steps
+of the CRC-16/XMODEM shift register (polynomial 0x1021) -/
+theorem gen_crc16Step (c : BitVec 16) (b : BitVec 8) : Gen.Crc16Table.crc16Step c b = Crc16.byteStep c b :=
+  Crc16.gen_crc16Step_eq c b
+
+/-- tie: same for utils.Crc16String -/
+theorem gen_crc16StringStep (c : BitVec 16) (b : BitVec 8) : Gen.Crc16Table.crc16StringStep c b = Crc16.byteStep c b :=
+  Crc16.gen_crc16StringStep_eq c b
+
+/-- tie: hence utils.Crc16 (register 0, the regenerated step folded over the bytes) is the CRC-16/XMODEM of the model -/
+theorem gen_crc16 (bs : List (BitVec 8)) : bs.foldl Gen.Crc16Table.crc16Step 0#16 = Crc16.crc16 bs := by
+  have : Gen.Crc16Table.crc16Step = Crc16.byteStep := by funext c b; exact Crc16.gen_crc16Step_eq c b
+  rw [this]; rfl
+
+/-- tie: the driver executes `anycastRewriteExec` (guarded shifts); it is the modelled arithmetic -/
+theorem exec_anycastRewrite (a d r : BitVec 32) : anycastRewriteExec a d r = anycastRewrite a d r :=
+  Shard.anycastRewriteExec_eq a d r
+
+/-! ## 2. shard algebra (hand model = regenerated definitions by section 1)
+
+`shardLen m = 63 - ctz m` is the prefix length of the shard id `m` (0 for the full shard `0x8000…`, up to 63), bit `i`
+"MSB first" is `getMsbD i`; `isLeft s` = the bit just above the lowest set bit is 0. -/
+
+/-- `Encode (ParseShardID m) = m` for every non-zero `m` (and `Encode` does not panic on a parsed shard) -/
+theorem shard_roundtrip (m : BitVec 64) (h : m ≠ 0) : (parseShardID m).bind encode = some m :=
+  Shard.shard_roundtrip m h
+
+/-- an account matches a shard exactly when the shard's `shardLen` prefix bits are the first bits of the address —
+for every prefix length 0 (the full shard `0x8000…`, matching everything) … 63 -/
+theorem match_is_prefix (m a : BitVec 64) (h : m ≠ 0) :
+    ∃ s, parseShardID m = some s ∧ (matchPrefix s a = true ↔ ∀ i, i < shardLen m → a.getMsbD i = m.getMsbD i) :=
+  Shard.match_is_prefix m a h
+
+/-- MatchBlockID is symmetric containment: it holds exactly when the shorter of the two prefixes is a prefix of the
+other shard id; a zero block shard never matches -/
+theorem match_block (m b : BitVec 64) (hm : m ≠ 0) (hb : b ≠ 0) :
+    ∃ s, parseShardID m = some s ∧
+      (matchBlock s b = true ↔ ∀ i, i < min (shardLen m) (shardLen b) → m.getMsbD i = b.getMsbD i) :=
+  Shard.match_block m b hm hb
+
+/-- a zero block shard id matches no shard -/
+theorem match_block_zero (s : ShardID) : matchBlock s 0 = false := Shard.match_block_zero s
+
+/-- `shardParent (shardChild s side) = s` whenever the lowest set bit of `s` is above bit 0 (prefix length ≤ 62) -/
+theorem parent_child_inverse (s : BitVec 64) (l : Bool) (h : s.getLsbD 0 = false) :
+    shardParent (shardChild s l) = s := Shard.parent_child s l h
+
+/-- `shardChild (shardParent s) (side of s) = s` for every shard except the full shard `0x8000…` and 0 -/
+theorem child_parent_inverse (s : BitVec 64) (h0 : s ≠ 0) (h1 : s ≠ 0x8000000000000000#64) :
+    shardChild (shardParent s) (isLeft s) = s := Shard.child_parent s h0 h1
+
+/-- a child's prefix is the parent's prefix extended by one bit: 0 for the left child, 1 for the right child -/
+theorem child_extends_prefix (s : BitVec 64) (l : Bool) (h0 : s ≠ 0) (h : s.getLsbD 0 = false) :
+    shardLen (shardChild s l) = shardLen s + 1 ∧
+    (∀ i, i < shardLen s → (shardChild s l).getMsbD i = s.getMsbD i) ∧
+    (shardChild s l).getMsbD (shardLen s) = !l :=
+  ⟨Shard.child_len s l h0 h, Shard.child_prefix s l h0 h⟩
+
+/-- convertShardIdent for prefix lengths 0..60 (proved for 0..63): a prefix confined to its top `n` bits becomes the shard
+id that parses back to exactly that prefix and mask, with prefix length `n` -/
+theorem convert_shard_ident (pfx : BitVec 64) (n : Nat) (hn : n ≤ 60) (hp : pfx &&& (BitVec.allOnes 64 >>> n) = 0) :
+    parseShardID (convertShardIdent pfx (BitVec.ofNat 8 n)) = some ⟨pfx, BitVec.allOnes 64 <<< (64 - n)⟩ ∧
+    shardLen (convertShardIdent pfx (BitVec.ofNat 8 n)) = n := Shard.convert_shard_ident pfx n hn hp
+
+/-- the anycast rewrite for depths 1..30: the top `d` bits of the address prefix become `rewrite_pfx`, the other
+`32 - d` bits are kept -/
+theorem anycast_rewrite (a r : BitVec 32) (d : Nat) (h1 : 1 ≤ d) (h30 : d ≤ 30) (hr : r.toNat < 2 ^ d) :
+    (anycastRewrite a (BitVec.ofNat 32 d) r) >>> (32 - d) = r ∧
+    (anycastRewrite a (BitVec.ofNat 32 d) r) &&& (BitVec.allOnes 32 >>> d) = a &&& (BitVec.allOnes 32 >>> d) :=
+  Shard.anycast_rewrite a r d h1 h30 hr
+
+/-- hypotheses are satisfiable: shard `0x4800…` (prefix 0100, length 4) -/
+example : shardParent (shardChild 0x4800000000000000#64 true) = 0x4800000000000000#64 :=
+  parent_child_inverse _ _ (by decide)
+example : shardChild (shardParent 0x4c00000000000000#64) (isLeft 0x4c00000000000000#64) = 0x4c00000000000000#64 :=
+  child_parent_inverse _ (by decide) (by decide)
 
 /-- the two children of a shard are placed symmetrically around it (64-bit wrap-around arithmetic) -/
 theorem children_symmetric (s : BitVec 64) : shardChild s true + shardChild s false = s + s := by
@@ -69,5 +150,86 @@ theorem children_symmetric (s : BitVec 64) : shardChild s true + shardChild s fa
   simp only [if_true, Bool.false_eq_true, if_false]
   generalize lowerBit s >>> 1 = x
   bv_omega
+
+/-! ## 3. account ids across their forms (model: TongoModel/Address.lean; strings are byte lists)
+
+`a.WF` = the address has 32 bytes. "int8 workchain" is `a.wc = (a.wc.setWidth 8).signExtend 32`. -/
+section
+open Tongo.Address
+
+/-- raw form `wc:hex`: every int32 workchain (negative ones included, −2^31 too) × every 256-bit address parses back -/
+theorem raw_roundtrip (a : AccountID) (h : a.WF) : fromRaw (toRaw a) = .ok a := Address.raw_roundtrip a h
+
+/-- zero-fill: a raw string whose hex part is short (an even number of digits ≤ 64) denotes the address left-padded with
+zero bytes -/
+theorem raw_short_hex (w : BitVec 32) (bs : List Byte) (h : bs.length ≤ 32) :
+    fromRaw (int32ToDec w ++ 58#8 :: hexEncode bs) = .ok ⟨w, List.replicate (32 - bs.length) 0#8 ++ bs⟩ :=
+  Address.raw_short_hex w bs h
+
+/-- user-friendly form: int8 workchains × all four flag combinations × both base64 alphabets parse back to the same id -/
+theorem human_roundtrip (url : Bool) (a : AccountID) (bounce testnet : Bool) (h : a.WF)
+    (hw : a.wc = (a.wc.setWidth 8).signExtend 32) : fromBase64Url (toHumanAlpha url a bounce testnet) = .ok a :=
+  Address.human_roundtrip url a bounce testnet h hw
+
+/-- separate fact: outside int8 the friendly form keeps only the low byte of the workchain (sign-extended on parse) -/
+theorem human_workchain_truncated (url : Bool) (a : AccountID) (b t : Bool) (h : a.WF) :
+    fromBase64Url (toHumanAlpha url a b t) = .ok ⟨(a.wc.setWidth 8).signExtend 32, a.addr⟩ :=
+  Address.human_alpha_workchain_truncated url a b t h
+
+/-- ParseAccountID: the raw form goes through the raw parser; a friendly string is never a valid raw string (no `:`) and
+is then accepted by the friendly parser -/
+theorem parse_dispatch :
+    (∀ a : AccountID, a.WF → parseAccountID (toRaw a) = .ok a) ∧
+    (∀ (url : Bool) (a : AccountID) (b t : Bool), a.WF → a.wc = (a.wc.setWidth 8).signExtend 32 →
+      (∃ e, fromRaw (toHumanAlpha url a b t) = .err e) ∧ (∀ x, fromRaw (toHumanAlpha url a b t) ≠ .ok x) ∧
+      parseAccountID (toHumanAlpha url a b t) = .ok a) := Address.parse_dispatch
+
+/-- JSON: the quoted raw form parses back -/
+theorem json_roundtrip (a : AccountID) (h : a.WF) : fromJSON (toJSON a) = .ok a := Address.json_roundtrip a h
+
+/-- TL: `le32 workchain ++ address` parses back, whatever follows in the stream -/
+theorem tl_roundtrip (a : AccountID) (h : a.WF) (rest : List Byte) : fromTL (toTL a ++ rest) = .ok a :=
+  Address.tl_roundtrip a h rest
+
+/-- TL-B `addr_std`: int8 workchains round-trip through MsgAddress -/
+theorem tlb_roundtrip (a : AccountID) (h : a.WF) (hw : a.wc = (a.wc.setWidth 8).signExtend 32) :
+    fromTlb (toMsgAddress a) = .ok (some a) := Address.tlb_roundtrip a h hw
+
+/-- separate fact: `int8(Workchain)` truncates — outside int8 the TL-B address carries the sign-extended low byte -/
+theorem tlb_workchain_truncated (a : AccountID) :
+    fromTlb (toMsgAddress a) = .ok (some ⟨(a.wc.setWidth 8).signExtend 32, a.addr⟩) := Address.tlb_workchain_truncated a
+
+/-- TL-B at the bit level: the 267 bits `10 0 wc:int8 addr:bits256` parse back to the same MsgAddress -/
+theorem tlb_bits_roundtrip (a : AccountID) (h : a.WF) (rest : List Bool) :
+    ∃ bs, tlbBits (toMsgAddress a) = some bs ∧ bs.length = 267 ∧ parseTlbBits (bs ++ rest) = .ok (toMsgAddress a) :=
+  Address.tlb_bits_roundtrip a h rest
+
+/-- ADNL: the 55-character lower-case base32 form of every 32-byte address parses back (with or without `.adnl`) -/
+theorem adnl_base32_roundtrip (addr : List Byte) (h : addr.length = 32) :
+    parseADNL (adnlToBase32 addr) = .ok addr ∧ parseADNL (adnlToBase32 addr ++ adnlSuffix) = .ok addr :=
+  ⟨Address.adnl_base32_roundtrip addr h, Address.adnl_base32_suffix_roundtrip addr h⟩
+
+/-- CENTREPIECE. For every valid 48-character friendly string `s` (either alphabet), every position `i` and every base64
+digit `d` whose 6-bit value differs from that of `s[i]` (`+`/`-` and `/`/`_` share a value), decoding the modified string
+is an error. Kernel-only: CRC-16 with zero initial register is linear over XOR; the regenerated table step is eight bit
+steps (`gen_crc16Step`); a zero-fed bit step is injective (the polynomial 0x1021 has constant term 1); a substitution is
+a non-zero 6-bit error burst, the last character of the 36-byte payload carrying exactly 6 bits. -/
+theorem single_char_rejected (s : Str) (i : Nat) (d : Byte)
+    (hlen : s.length = 48) (hvalid : (fromBase64Url s).isOk = true) (hi : i < 48)
+    (hd : ∃ v, digitVal d = some v ∧ digitVal (s.getD i 0) ≠ some v) :
+    (fromBase64Url (s.set i d)).isErr = true := Address.single_char_rejected s i d hlen hvalid hi hd
+
+/-- the same through ParseAccountID: the corrupted string is not accepted by the raw parser either when it contains no `:`
+— which is always the case, the friendly alphabet has no colon; stated for the friendly parser above. Non-vacuity: the
+friendly form of the zero address in the basechain is a valid 48-character string. -/
+example : (toHuman ⟨0#32, List.replicate 32 0#8⟩ true false).length = 48 ∧
+    (fromBase64Url (toHuman ⟨0#32, List.replicate 32 0#8⟩ true false)).isOk = true := by
+  constructor
+  · decide +kernel
+  · rw [show toHuman ⟨0#32, List.replicate 32 0#8⟩ true false = toHumanAlpha true ⟨0#32, List.replicate 32 0#8⟩ true false from rfl,
+      Address.human_roundtrip true _ true false (by simp [AccountID.WF]) (by decide)]
+    rfl
+
+end
 
 end Tongo.C17
